@@ -2,7 +2,7 @@
    the loop that is in the tree now is a run of the abstract loop whose only state is (unread bytes, reader state) — which is what
    makes "call it again" continue as if the failure had not happened (Props/C06.v: c06_faults_invisible is about that abstract loop). *)
 From FB Require Import Sem.Base Sem.Lemmas Model.Fb Spec.Api Spec.Frames Spec.Retry
-  Facets.Fb Facets.Fb2 Facets.Rf Facets.RfInv Facets.RfRefine Facets.C06.
+  Facets.Fb Facets.Fb2 Facets.Rf Facets.RfInv Facets.RfRefine Facets.C06 Facets.C06Retry.
 From FB Require Gen.FbGen.
 From FB Require Import GenEq.RfSource.
 Open Scope Z_scope.
@@ -28,5 +28,29 @@ Proof.
   exact (call_panics SIZE chk R AR df HR Hdf fuel s rs s' rs' HI).
 Qed.
 
+(* the retrying caller over the read_frame that is in the tree now *)
+Lemma retry_source_eq : forall SIZE chk (R : Reader fstream) df,
+  implements R fstream_ar -> (forall u, zlen u <= SIZE -> df_in_bounds df u) ->
+  forall fuel tries s st, Inv2 SIZE s ->
+  retry_with (FbGen.read_frame SIZE chk R fuel df) tries (s, st) = retry chk R df fuel tries (s, st).
+Proof.
+  intros SIZE chk R df HR Hdf fuel. induction tries as [|t IH]; intros s st HI; [reflexivity|].
+  unfold retry in *. cbn [retry_with].
+  rewrite (read_frame_source_eq SIZE chk _ R df (implements_sane R _ HR) Hdf fuel (s, st) (proj1 HI)).
+  destruct (read_frame chk R fuel df (s, st)) as [[r1|] [s1 st1]|w1] eqn:E; [|reflexivity|reflexivity].
+  destruct r1 as [p| |k]; [reflexivity|reflexivity|].
+  destruct (transient k); [|reflexivity].
+  apply IH. exact (proj2 (call_runs SIZE chk R fstream_ar df HR Hdf fuel s st (FErr k) s1 st1 HI E)).
+Qed.
+Theorem c06_retrying_caller_source : forall SIZE chk (R : Reader fstream) df,
+  implements R fstream_ar -> (forall u, zlen u <= SIZE -> df_in_bounds df u) ->
+  forall fuel tries s st r s' st', Inv2 SIZE s -> all_transient st ->
+  retry_with (FbGen.read_frame SIZE chk R fuel df) tries (s, st) = Val (Done r) (s', st') ->
+  runs (abody SIZE fstream_ar df) (clean (unread s, st)) r (clean (unread s', st')) /\ Inv2 SIZE s'.
+Proof.
+  intros SIZE chk R df HR Hdf fuel tries s st r s' st' HI Ht. rewrite (retry_source_eq SIZE chk R df HR Hdf fuel tries s st HI).
+  exact (retrying_caller_sees_no_faults SIZE chk R HR df Hdf fuel tries s st r s' st' HI Ht).
+Qed.
+
 Print Assumptions c06_call_runs_source.
-Definition gen_eq := (c06_call_runs_source, c06_panic_source).
+Definition gen_eq := (c06_call_runs_source, c06_panic_source, c06_retrying_caller_source).
